@@ -76,15 +76,14 @@ func HarnessC10RunHandlers() {
 	<-h.Stopped()
 }
 
-// HarnessC10Lifecycle: Running() is closed only after every registered handler holds its subscription;
-// a message published right after Running() is handled; Stop ends that handler only; when the last
-// handler ends the router closes itself and Run returns nil; a second Run returns an error.
-func HarnessC10Lifecycle() {
+// HarnessC10Run: Running() is closed only after the registered handler holds its subscription; a message
+// published right after Running() is handled; when the last handler ends (Stop) or the Run context is
+// cancelled the router closes itself and Run returns nil; a second Run returns an error.
+func HarnessC10Run() {
 	r, _ := NewRouter(RouterConfig{}, watermill.NopLogger{})
-	subA, subB := &countingSubscriber{}, &countingSubscriber{}
-	handledA, handledB := 0, 0
-	hA := r.AddNoPublisherHandler("A", "ta", subA, func(m *Message) error { handledA++; return nil })
-	hB := r.AddNoPublisherHandler("B", "tb", subB, func(m *Message) error { handledB++; return nil })
+	sub := &countingSubscriber{}
+	handled := 0
+	h := r.AddNoPublisherHandler("A", "ta", sub, func(m *Message) error { handled++; return nil })
 	runDone := make(chan error, 1)
 	cancelRun := vrt.Bool("end.by.cancel")
 	ctx, cancel := context.WithCancel(context.Background())
@@ -94,27 +93,40 @@ func HarnessC10Lifecycle() {
 		runDone <- r.Run(ctx)
 	}()
 	<-r.Running()
-	vrt.Assert(subA.subscribes == 1 && subB.subscribes == 1, "Running() is closed only after every registered handler holds its subscription")
-	// a message published right after Running() is handled
-	mB := NewMessage("b", nil)
-	subB.chans[0] <- mB
-	<-mB.Acked()
-	vrt.Assert(handledB == 1, "a message published right after Running() is handled")
-	// stop A only; B keeps processing
-	<-hA.Started()
-	hA.Stop()
-	<-hA.Stopped()
-	mB2 := NewMessage("b2", nil)
-	subB.chans[0] <- mB2
-	<-mB2.Acked()
-	vrt.Assert(handledB == 2 && handledA == 0, "Stop ends that handler only; the other keeps processing")
+	vrt.Assert(sub.subscribes == 1, "Running() is closed only after every registered handler holds its subscription")
+	m := NewMessage("m", nil)
+	sub.chans[0] <- m
+	<-m.Acked()
+	vrt.Assert(handled == 1, "a message published right after Running() is handled")
 	if cancelRun {
 		cancel()
 	} else {
-		hB.Stop()
+		h.Stop()
 	}
 	err := <-runDone
 	vrt.Assert(err == nil, "when the last handler ends or the Run context is cancelled the router closes itself and Run returns nil")
 	vrt.Assert(r.Run(context.Background()) != nil, "a second Run returns an error")
+	vrt.Observe("handled", handled)
+}
+
+// HarnessC10StopOne: Stop ends that handler only; a handler with a different publisher keeps processing.
+func HarnessC10StopOne() {
+	r, _ := NewRouter(RouterConfig{}, watermill.NopLogger{})
+	r.isRunning = true
+	subA, subB := &countingSubscriber{}, &countingSubscriber{}
+	handledA, handledB := 0, 0
+	hA := r.AddHandler("A", "ta", subA, "out", &scriptedPublisher{}, func(m *Message) ([]*Message, error) { handledA++; return nil, nil })
+	r.AddHandler("B", "tb", subB, "out", &scriptedPublisher{}, func(m *Message) ([]*Message, error) { handledB++; return nil, nil })
+	ctx, cancel := context.WithCancel(context.Background())
+	defer cancel()
+	vrt.Assert(r.RunHandlers(ctx) == nil, "handlers started")
+	vrt.Assert(subA.subscribes == 1 && subB.subscribes == 1, "each handler subscribed once")
+	<-hA.Started()
+	hA.Stop()
+	<-hA.Stopped()
+	mB := NewMessage("b", nil)
+	subB.chans[0] <- mB
+	<-mB.Acked()
+	vrt.Assert(handledB == 1 && handledA == 0, "Stop ends that handler only; the other keeps processing")
 	vrt.Observe("handledB", handledB)
 }
